@@ -398,3 +398,73 @@ func phiEdgePolarity(ph *ssa.Phi, i int, match func(atom string) bool) int {
 	}
 	return polar
 }
+
+// selectOf recognises a two-way choice `cond ? a : b` in the two shapes it takes in this code base: a phi whose two
+// edges arrive across the two polarities of one boolean atom, or a call of a (new) two-return helper
+// `func(flag bool, …) T { if flag { return x }; return y }` — rendered in the caller's frame. match selects the atom.
+func selectOf(v ssa.Value, match func(atom string) bool) (whenTrue, whenFalse string, ok bool) {
+	switch x := v.(type) {
+	case *ssa.Phi:
+		if len(x.Edges) != 2 {
+			return "", "", false
+		}
+		for i, e := range x.Edges {
+			switch phiEdgePolarity(x, i, match) {
+			case 1:
+				whenTrue = E(e)
+			case -1:
+				whenFalse = E(e)
+			default:
+				return "", "", false
+			}
+		}
+		return whenTrue, whenFalse, whenTrue != "" && whenFalse != ""
+	case *ssa.Call:
+		g := engine.StaticFn(x.Common())
+		if g == nil || !strings.HasPrefix(FK(g), engine.ModPrefix) || len(g.Blocks) == 0 || g.Signature.Results().Len() != 1 {
+			return "", "", false
+		}
+		paths, err := engine.EnumPaths(g, engine.EnumOpts{Max: 8})
+		if err != nil || len(paths) != 2 {
+			return "", "", false
+		}
+		args := x.Common().Args
+		render := func(rv ssa.Value) string {
+			if pr, isP := rv.(*ssa.Parameter); isP {
+				for i, q := range g.Params {
+					if q == pr && i < len(args) {
+						return E(args[i])
+					}
+				}
+			}
+			return E(rv)
+		}
+		for _, pa := range paths {
+			if len(pa.Ret) != 1 || len(pa.Lits) != 1 {
+				return "", "", false
+			}
+			l := pa.Lits[0]
+			// the atom is a bool parameter: translate to the actual argument's atom
+			pr, isP := l.Cond.(*ssa.Parameter)
+			if !isP {
+				return "", "", false
+			}
+			actual := ""
+			for i, q := range g.Params {
+				if q == pr && i < len(args) {
+					actual = E(args[i])
+				}
+			}
+			if !match(actual) {
+				return "", "", false
+			}
+			if l.Pos {
+				whenTrue = render(pa.Ret[0])
+			} else {
+				whenFalse = render(pa.Ret[0])
+			}
+		}
+		return whenTrue, whenFalse, whenTrue != "" && whenFalse != ""
+	}
+	return "", "", false
+}
